@@ -945,8 +945,15 @@ func newScanner(i io.Reader) *bufio.Scanner {
 			}
 			// The carriage return is the last byte we have: we need more data to
 			// know whether it is followed by a newline.
-			if i+1 == len(data) && !atEOF {
-				return 0, nil, nil
+			if i+1 == len(data) {
+				if !atEOF {
+					return 0, nil, nil
+				}
+				// The scanner would have failed if the end of the stream had not
+				// been delivered along with those bytes
+				if len(data) >= bufio.MaxScanTokenSize {
+					return 0, nil, bufio.ErrTooLong
+				}
 			}
 			advance = i + 1
 			if len(data) > i+1 && data[i+1] == '\n' {
@@ -956,6 +963,11 @@ func newScanner(i io.Reader) *bufio.Scanner {
 		}
 		// If we're at EOF, we have a final, non-terminated line. Return it.
 		if atEOF {
+			// The scanner would have failed if the end of the stream had not
+			// been delivered along with those bytes
+			if len(data) >= bufio.MaxScanTokenSize {
+				return 0, nil, bufio.ErrTooLong
+			}
 			return len(data), data, nil
 		}
 		// Request more data.
